@@ -74,7 +74,7 @@ Section Thms.
     intros r g. unfold Persist.fabric_removed, Persist.drop_for.
     assert (Hm : forall l : list (kvop blob), forallb (fun e => match e with EKv _ => true | EAck _ => false end) (map EKv l) = true)
       by (induction l as [|a t IH]; [reflexivity|exact IH]).
-    destruct (Nat.eqb (length (filter (fun x => negb (fst x =? g)) (r_subs r))) (length (r_subs r))),
+    destruct (Nat.eqb (length (drop_subs g (r_subs r))) (length (r_subs r))),
              (amem (r_scenes r) g), (amem (r_ota r) g), (amem (r_icd r) g), (amem (r_binds r) g);
       cbn [snd app forallb andb]; rewrite ?forallb_app, ?Hm; reflexivity.
   Qed.
@@ -332,7 +332,7 @@ Section Thms.
     In k singleton_keys \/ in_subs k.
   Proof.
     intros r g k b. unfold Persist.fabric_removed, Persist.drop_for.
-    destruct (Nat.eqb (length (filter (fun x => negb (fst x =? g)) (r_subs r))) (length (r_subs r))),
+    destruct (Nat.eqb (length (drop_subs g (r_subs r))) (length (r_subs r))),
              (amem (r_scenes r) g), (amem (r_ota r) g), (amem (r_icd r) g), (amem (r_binds r) g);
       cbn [snd]; rewrite !in_app_iff; cbn [In]; intros H;
       repeat match goal with
@@ -382,7 +382,7 @@ Section Thms.
   Proof.
     intros m fabs sb ops. unfold Persist.resume_subs.
     destruct (load_subs blob dec_sub (nrange SUBS_START (N.to_nat NSUBS)) m) as [l|]; [|discriminate].
-    destruct (length (filter (fun x => amem fabs (fst x)) l) =? length l)%nat; intros H; injection H as <- <-.
+    destruct (length (drop_where (fun x => negb (amem fabs (fst x))) l) =? length l)%nat; intros H; injection H as <- <-.
     - constructor.
     - apply persist_subs_subop.
   Qed.
